@@ -269,6 +269,18 @@ def compute_attractor_candidates(
                 )
             retained_set = {}
             candidate_states = []
+            if len(node_nfvs) == 0:
+                # Nothing to choose: the candidates are the fixed points themselves.
+                candidate_states = compute_fixed_point_reduced_STG(
+                    pn_reduced,
+                    retained_set,
+                    avoid_subspaces=child_motifs_reduced,
+                    solution_limit=candidates_limit,
+                )
+                if len(candidate_states) >= candidates_limit:
+                    raise RuntimeError(
+                        f"Exceeded the maximum amount of attractor candidates ({sd.config['attractor_candidates_limit']}; see `SuccessionDiagramConfiguation.attractor_candidates_limit`)."
+                    )
             for var in node_nfvs:
                 retained_set[var] = 0
                 candidate_states_zero = compute_fixed_point_reduced_STG(
